@@ -261,6 +261,44 @@ fn scenario(name: &str, n: i64) {
             let r = a.union(&b);
             assert!(!r.0.is_empty());
         }
+        "holes" => {
+            // one polygon with n holes stacked in one column, united with a rectangle at its side: every hole
+            // lies directly above the previous one (chains of "the contour below me" as long as the column)
+            let h = 3.0 * n as f64 + 1.0;
+            let ext = LineString(vec![
+                Coord { x: 0.0, y: 0.0 },
+                Coord { x: 10.0, y: 0.0 },
+                Coord { x: 10.0, y: h },
+                Coord { x: 0.0, y: h },
+                Coord { x: 0.0, y: 0.0 },
+            ]);
+            let holes: Vec<LineString<f64>> = (0..n)
+                .map(|k| {
+                    let y = 3.0 * k as f64 + 1.0;
+                    LineString(vec![
+                        Coord { x: 1.0, y },
+                        Coord { x: 1.0, y: y + 1.0 },
+                        Coord { x: 2.0, y: y + 1.0 },
+                        Coord { x: 2.0, y },
+                        Coord { x: 1.0, y },
+                    ])
+                })
+                .collect();
+            let a = MultiPolygon(vec![Polygon::new(ext, holes)]);
+            let b = MultiPolygon(vec![Polygon::new(
+                LineString(vec![
+                    Coord { x: 9.0, y: 0.0 },
+                    Coord { x: 12.0, y: 0.0 },
+                    Coord { x: 12.0, y: 1.0 },
+                    Coord { x: 9.0, y: 1.0 },
+                    Coord { x: 9.0, y: 0.0 },
+                ]),
+                vec![],
+            )]);
+            let r = a.union(&b);
+            assert_eq!(r.0.len(), 1);
+            assert_eq!(r.0[0].interiors().len(), n as usize);
+        }
         "sweepdesc" => {
             // tips at x = 1 .. 1 + n/1000 enter top to bottom; the clipping box ends at x = 800 < 900, so the
             // sweep breaks while every tooth edge is still on the sweep line
